@@ -201,6 +201,13 @@ func c09Hist() []hop {
 		hop{"PANIC NewLunarFromYmd(2020,4,31)", func() string { return fmt.Sprint(calendar.NewLunarFromYmd(2020, 4, 31)) }},
 		hop{"PANIC NewLunar(2020,1,1,24,0,0)", func() string { return fmt.Sprint(calendar.NewLunar(2020, 1, 1, 24, 0, 0)) }},
 		hop{"PANIC SolarUtil.GetDaysInYear(1582,10,10)", func() string { return fmt.Sprint(SolarUtil.GetDaysInYear(1582, 10, 10)) }},
+		// holiday lookups that hit and that miss, through every entry point
+		hop{"GetHolidaysByTarget(2020-10-01)", func() string { return strings.Join(holList(HolidayUtil.GetHolidaysByTarget("2020-10-01")), ",") }},
+		hop{"GetHolidaysByTarget(2020-05-02) (no such target)", func() string { return strings.Join(holList(HolidayUtil.GetHolidaysByTarget("2020-05-02")), ",") }},
+		hop{"GetHolidaysByTargetYmd(1999,1,1) (outside the records)", func() string { return strings.Join(holList(HolidayUtil.GetHolidaysByTargetYmd(1999, 1, 1)), ",") }},
+		hop{"GetHoliday(2020-05-06) (no record)", func() string { return fmt.Sprint(HolidayUtil.GetHoliday("2020-05-06")) }},
+		hop{"GetHolidaysByYm(2020,3) (no record)", func() string { return strings.Join(holList(HolidayUtil.GetHolidaysByYm(2020, 3)), ",") }},
+		hop{"PANIC? GetHolidays(\"\")", func() string { return strings.Join(holList(HolidayUtil.GetHolidays("")), ",") }},
 	)
 	return ops
 }
@@ -213,7 +220,7 @@ func runHistory(ops []hop, h []int) (res []string, state string, dead bool) {
 		}
 	}
 	x := runSchedule(nil, []func(*thr){body}, nil, nil, resetHidden)
-	state = hiddenState()
+	state = hiddenState() + fmt.Sprintf(" anyMutexHeld=%v", x.lockHeld)
 	return x.thrs[0].Res, state, x.deadlock
 }
 
@@ -272,7 +279,7 @@ func c09CheckHistory(w *W, ops []hop, refs []string, h []int, setName string) st
 			w.Viol("C09:history:"+strings.Join(hn, ">"), fmt.Sprintf("after history %v the call %s returns a different value than on the pristine state: %s", hn[:k], ops[i].name, firstDiffWords(res[k], refs[i])), hn)
 		}
 	}
-	if strings.Contains(state, "lockHeld=true") {
+	if strings.Contains(state, "lockHeld=true") || strings.Contains(state, "anyMutexHeld=true") {
 		w.Viol("C09:history:lock-held:"+strings.Join(histNamesC09(ops, h), ">"), fmt.Sprintf("history %v leaves the package lock held", histNamesC09(ops, h)), histNamesC09(ops, h))
 	}
 	w.DistinctAdd(setName, state)
